@@ -70,5 +70,20 @@ __CPROVER_ensures(/*no-exception*/ nix_exc == EXC_NONE)
 NIX_SEL(RangeDimension_indexOf_pair, __CPROVER_ensures(/*COVER-pair-has*/ !(RT_F(start, end) && RV.has && RV.val.first < RV.val.second)) __CPROVER_ensures(/*COVER-pair-none*/ !(RT_F(start, end) && !RV.has && start <= end && RT_N > 1)) __CPROVER_ensures(/*COVER-backend-ticks*/ !(RT_F(start, end) && RV.has && ticks.n == 0)), )
 NIX_CANARY(RangeDimension_indexOf_pair) __CPROVER_assigns()
 ;
+
+/* ---- sampled axis (grid constants S_INT / S_OFF as in c07_leaf.h), local form ---- */
+#define SP_END_OK(i, e, m) ((m) == RangeMatch_Inclusive ? SAX(i) <= (e) : SAX(i) < (e))
+#define SP_END_NEXT(i, e, m) ((m) == RangeMatch_Inclusive ? (e) < SAX((i) + 1) : (e) <= SAX((i) + 1))
+opt_pair SampledDimension_indexOf_pair(const SampledDimension *self, double start, double end, const double sampling_interval, const double offset, const RangeMatch match)
+__CPROVER_requires(NIX_SEL(SampledDimension_indexOf_pair, __CPROVER_is_fresh(self, sizeof(*self)), __CPROVER_r_ok(self, sizeof(*self))))
+__CPROVER_requires(RM_VALID(match) && nix_exc == EXC_NONE && sampling_interval == (S_INT) && offset == (S_OFF) && SAX_DOM(start) && SAX_DOM(end))
+__CPROVER_ensures(/*pair-sound*/ RV.has ==> (start <= end && RV.val.first <= RV.val.second && SAX(RV.val.first) >= start && SP_END_OK(RV.val.second, end, match)))
+__CPROVER_ensures(/*pair-first-is-smallest*/ (RV.has && RV.val.first > 0) ==> SAX(RV.val.first - 1) < start)
+__CPROVER_ensures(/*pair-second-is-largest*/ RV.has ==> SP_END_NEXT(RV.val.second, end, match))
+__CPROVER_ensures(/*pair-valid-when-region-nonempty*/ (start <= end && ghost_k <= 10012 && SAX(ghost_k) >= start && SP_END_OK(ghost_k, end, match)) ==> RV.has)
+__CPROVER_ensures(/*no-exception*/ nix_exc == EXC_NONE)
+NIX_SEL(SampledDimension_indexOf_pair, __CPROVER_ensures(/*COVER-pair-has*/ !(RV.has && RV.val.first < RV.val.second)) __CPROVER_ensures(/*COVER-pair-none*/ !(!RV.has && start <= end)) __CPROVER_ensures(/*COVER-exclusive-at-first-sample*/ !(match == RangeMatch_Exclusive && end == (S_OFF) && start <= end)), )
+NIX_CANARY(SampledDimension_indexOf_pair) __CPROVER_assigns()
+;
 #undef RV
 #endif
